@@ -499,37 +499,47 @@ func c08MultiPage(c *lib.Ctx, types []string, path string) {
 		}
 		return true
 	}
+	candsFor := func(t string) []c08Val {
+		var cands []c08Val
+		for _, v := range c08Values(t, false) {
+			if !v.ok {
+				continue
+			}
+			if s, isStr := v.v.(string); isStr && len(s) == 1 && s != "a" {
+				continue // the 256 single bytes are covered by the single-row journeys
+			}
+			if path == "sqltext" && (v.sqlLit == "" || v.v == nil) {
+				continue
+			}
+			cands = append(cands, v)
+		}
+		return cands
+	}
+	update := func(pos, j int, v c08Val) bool {
+		var err error
+		if path == "direct" {
+			q := sql.UpdateStatementSearched{TableName: "v", Set: []sql.SetClause{{ObjectColumn: names[j+1], UpdateSource: v.v}},
+				Where: sql.WhereClause{SearchCondition: sql.Predicate{ComparisonPredicate: sql.ComparisonPredicate{LHS: sql.ColumnReference{ColumnName: "id"}, CompOp: sql.EQ, RHS: int64(pos)}}}}
+			err = guard(func() error { return EvaluateUpdate(q, w.sess.RelationService) })
+		} else {
+			err = w.exec(fmt.Sprintf("UPDATE v SET %s = %s WHERE id = %d", names[j+1], v.sqlLit, pos))
+		}
+		if err != nil {
+			w.failErr("valid-value-refused", fmt.Sprintf("UPDATE row %d column %s = %s", pos, names[j+1], clipAny(v.v)), err)
+			return false
+		}
+		expect[pos][j+1] = v.v
+		return true
+	}
 	n := 0
 	for _, pos := range []int{0, 5, 11} {
 		for j, t := range types {
-			var cands []c08Val
-			for _, v := range c08Values(t, false) {
-				if !v.ok {
-					continue
-				}
-				if s, isStr := v.v.(string); isStr && len(s) == 1 && s != "a" {
-					continue // the 256 single bytes are covered by the single-row journeys
-				}
-				if path == "sqltext" && (v.sqlLit == "" || v.v == nil) {
-					continue
-				}
-				cands = append(cands, v)
-			}
+			cands := candsFor(t)
 			for _, v := range cands {
 				n++
-				var err error
-				if path == "direct" {
-					q := sql.UpdateStatementSearched{TableName: "v", Set: []sql.SetClause{{ObjectColumn: names[j+1], UpdateSource: v.v}},
-						Where: sql.WhereClause{SearchCondition: sql.Predicate{ComparisonPredicate: sql.ComparisonPredicate{LHS: sql.ColumnReference{ColumnName: "id"}, CompOp: sql.EQ, RHS: int64(pos)}}}}
-					err = guard(func() error { return EvaluateUpdate(q, w.sess.RelationService) })
-				} else {
-					err = w.exec(fmt.Sprintf("UPDATE v SET %s = %s WHERE id = %d", names[j+1], v.sqlLit, pos))
-				}
-				if err != nil {
-					w.failErr("valid-value-refused", fmt.Sprintf("UPDATE row %d column %s = %s", pos, names[j+1], clipAny(v.v)), err)
+				if !update(pos, j, v) {
 					return
 				}
-				expect[pos][j+1] = v.v
 				if !c08Compare(w, expect, fmt.Sprintf("right after updating row %d column %d to %s", pos, j, clipAny(v.v))) {
 					return
 				}
@@ -552,6 +562,27 @@ func c08MultiPage(c *lib.Ctx, types []string, path string) {
 						return
 					}
 				}
+			}
+		}
+	}
+	// an update, a flush, another update of the same row, and a crash before the next flush: the second value
+	// exists in the log only and has to come back from there (for every column, on the first and the last page)
+	for _, pos := range []int{0, 11} {
+		for j, t := range types {
+			cands := candsFor(t)
+			if len(cands) < 2 {
+				continue
+			}
+			if !update(pos, j, cands[len(cands)-1]) || !w.tick() || !update(pos, j, cands[0]) {
+				return
+			}
+			c.Logf("CRASH (second update of row %d column %d not flushed)", pos, j)
+			w = w.recoverFrom(w.image(), false)
+			if c.Failed() {
+				return
+			}
+			if !c08Compare(w, expect, fmt.Sprintf("after update, flush, second update of row %d column %d and a crash (the value travelled through the log)", pos, j)) {
+				return
 			}
 		}
 	}
